@@ -56,18 +56,6 @@ example : expSelect [(1 : Int), 3, 6] 2 false = .ok 1 := by decide
 end order
 
 /-- ★ `ExponentialCategorical.randomise` returns (the index of) one of the domain values -/
-theorem catLoop_lt {β : Type} [OfNat β 0] [Add β] [LT β] [DecidableLT β] (t : β) :
-    ∀ (ps : List β) (cum : β) (i last : Nat), last < i → catLoop t ps cum i last < i + ps.length
-  | [], _, i, last, h => by unfold catLoop; simpa using h
-  | p :: ps, cum, i, last, h => by
-    unfold catLoop
-    simp only
-    split
-    · simp
-    · have := catLoop_lt t ps (cum + p) (i + 1) i (by omega)
-      simp only [List.length_cons]
-      omega
-
 theorem categorical_in_domain {β : Type} [OfNat β 0] [Add β] [LT β] [DecidableLT β] (probs : List β) (t : β)
     (h : probs ≠ []) : catSelect probs t < probs.length := by
   unfold catSelect
@@ -109,10 +97,6 @@ theorem binary_in_labels {L : Type} (v0 v1 : L) (eps delta u : ℝ) (ind : Bool)
   · left; rfl
 
 /-! ### fold as coded (ℝ) -/
-
-theorem feq_false_of_lt {lo hi : ℝ} (h : lo < hi) : feq lo hi = false := by
-  unfold feq
-  simp [not_le.mpr h]
 
 /-- `_fold` terminates with a value of the domain, after at most 2 reflections: the single-point shortcut when
 `lower = upper`; otherwise the modulo step leaves the value within two widths of the domain and every reflection
@@ -176,18 +160,6 @@ theorem laplaceTruncated_in_bounds (lo hi v sc u1 u2 u3 u4 : ℝ) (h : lo ≤ hi
 theorem laplaceFolded_in_bounds (lo hi v sc u1 u2 u3 u4 : ℝ) (h : lo ≤ hi) :
     ∃ r k, laplaceFolded lo hi v sc u1 u2 u3 u4 = some (r, k) ∧ k ≤ 2 ∧ lo ≤ r ∧ r ≤ hi :=
   fold_in_bounds lo hi _ h 64 (by omega)
-
-theorem bdClamp_in (lo hi v : ℝ) (h : lo ≤ hi) : lo ≤ bdClamp lo hi v ∧ bdClamp lo hi v ≤ hi := by
-  unfold bdClamp pyMax pyMin
-  by_cases h1 : hi < v
-  · simp only [h1, if_true]
-    by_cases h2 : hi < lo
-    · exact absurd h (not_le.mpr h2)
-    · simp [h2, h]
-  · simp only [h1, if_false]
-    by_cases h2 : v < lo
-    · simp [h2, h]
-    · simp [h2, not_lt.mp h1, not_lt.mp h2]
 
 /-- whatever the rejection loop returns lies in `[lower, upper]` -/
 theorem rejection_returns_in_range (lo hi v sc : ℝ) : ∀ (fuel s : ℕ) (us : List ℝ) (used : ℕ) (r : ℝ) (n : ℕ),
@@ -275,13 +247,6 @@ theorem degenerate_identity_snapping (eps lo hi v : ℝ) (bit : Bool) (u : ℝ) 
 
 /-! ### geometric family: integer outputs in range -/
 
-theorem truncate_intCast (lo hi n : ℤ) : truncate (lo : ℝ) (hi : ℝ) (n : ℝ) = ((truncate lo hi n : ℤ) : ℝ) := by
-  unfold truncate
-  simp only [Int.cast_lt]
-  split
-  · rfl
-  · split <;> rfl
-
 /-- `GeometricTruncated.randomise` returns a Python int inside the bounds -/
 theorem geom_int (lo hi : ℤ) (h : lo ≤ hi) (scale : Option ℝ) (v : ℤ) (us : List ℝ) (res : Except RErr Int)
     (hr : geometricTruncated (lo : ℝ) (hi : ℝ) scale v us = some res) :
@@ -360,5 +325,46 @@ theorem snapping_reverse_in_bounds (sens lo hi x : ℝ) (hs : 0 < sens) (h : lo 
 theorem bingham_unit_norm (v : List ℝ) (h : rowNorm v ≠ 0) : rowNorm (v.map (fun x => x / rowNorm v)) = 1 := by
   have hpos : 0 < rowNorm v := lt_of_le_of_ne (rowNorm_nonneg v) (Ne.symm h)
   rw [rowNorm_map_div v _ hpos, div_self h]
+
+/-! ### further: the redraw loop returns; composed degenerate identity; strict selection -/
+
+/-- the redraw loop of `Geometric.randomise` stops at the first uniform that is not exactly ½ -/
+theorem geomDraw_returns : ∀ (us : List ℝ), (∃ u ∈ us, u - 1 / 2 ≠ 0) → ∃ c rest, geomDraw us = some (c, rest) ∧ c ≠ 0
+  | [], h => by obtain ⟨u, hu, _⟩ := h; cases hu
+  | u :: us, h => by
+    unfold geomDraw
+    by_cases hc : u - 1 / 2 = 0
+    · have : feq (u - 1 / 2) 0 = true := (feq_iff _ _).mpr hc
+      simp only [this, if_true]
+      apply geomDraw_returns us
+      obtain ⟨x, hx, hne⟩ := h
+      rcases List.mem_cons.mp hx with rfl | hx'
+      · exact absurd hc hne
+      · exact ⟨x, hx', hne⟩
+    · have : feq (u - 1 / 2) 0 = false := by
+        rw [Bool.eq_false_iff]
+        intro hf
+        exact hc ((feq_iff _ _).mp hf)
+      simp only [this]
+      exact ⟨_, _, rfl, hc⟩
+
+theorem degenerate_identity_geomTruncated (lo hi v : ℤ) (us : List ℝ) (c : ℝ) (rest : List ℝ)
+    (h : geomDraw us = some (c, rest)) :
+    geometricTruncated (lo : ℝ) (hi : ℝ) none v us = some (.ok (truncate lo hi v)) := by
+  unfold geometricTruncated
+  rw [degenerate_identity_geometric v us c rest h]
+  show some (intRound (truncate (lo : ℝ) (hi : ℝ) ((v : ℤ) : ℝ))) = _
+  rw [truncate_intCast, intRound_int]
+
+/-- the candidate `Exponential.randomise` selects has cumulative probability strictly above the uniform: a candidate
+of probability 0 is never returned, not even for the uniform 0.0 (regression: `<=` selected it) -/
+theorem select_strict {α : Type} [LinearOrder α] (cum : List α) (u : α) (i : Nat)
+    (h : expSelect cum u false = .ok i) : ∃ p, cum[i]? = some p ∧ u < p := by
+  unfold expSelect at h
+  split at h
+  · rename_i j hj
+    cases h
+    simpa using firstLe_strict u cum 0 i hj
+  · simp at h
 
 end DPL.C12
